@@ -484,15 +484,55 @@ func rewriteChannels(p *packages.Package, f *ast.File) bool {
 					cc.Body = append([]ast.Stmt{&ast.ExprStmt{X: vrtCall("ExtResume", ast.NewIdent(id))}}, cc.Body...)
 				}
 			}
-			c.Replace(&ast.BlockStmt{List: []ast.Stmt{
-				&ast.ExprStmt{X: vrtCall("Yield")},
+			fallback := []ast.Stmt{
 				&ast.AssignStmt{Lhs: []ast.Expr{ast.NewIdent(id)}, Tok: token.DEFINE, Rhs: []ast.Expr{vrtCall("ExtBlock", refs...)}},
 				n,
-			}})
+			}
+			if len(refs) == len(n.Body.List) && len(refs) <= 16 && !hasLabels(n) {
+				// every communication is named: which of several ready ones is taken becomes a choice
+				// of the explorer (SelectChoose); the chosen one is performed as an operation of its
+				// own.  Only when none can proceed the thread parks in the real select.
+				sw := &ast.SwitchStmt{Tag: vrtCall("SelectChoose", refs...), Body: &ast.BlockStmt{}}
+				for i, cl := range n.Body.List {
+					cc := cl.(*ast.CommClause)
+					var comm ast.Stmt
+					switch cm := cc.Comm.(type) {
+					case *ast.SendStmt:
+						comm = &ast.ExprStmt{X: &ast.CallExpr{Fun: vrtCall("ChanSender", cm.Chan), Args: []ast.Expr{cm.Value}}}
+					case *ast.ExprStmt:
+						comm = &ast.ExprStmt{X: vrtCall("ChanRecv", ast.Unparen(cm.X).(*ast.UnaryExpr).X)}
+					case *ast.AssignStmt:
+						fn := "ChanRecv"
+						if len(cm.Lhs) == 2 {
+							fn = "ChanRecv2"
+						}
+						comm = &ast.AssignStmt{Lhs: cm.Lhs, Tok: cm.Tok, Rhs: []ast.Expr{vrtCall(fn, ast.Unparen(cm.Rhs[0]).(*ast.UnaryExpr).X)}}
+					}
+					// cc.Body[0] is the ExtResumeSel call added above: not part of the direct path
+					body := append([]ast.Stmt{comm}, cc.Body[1:]...)
+					sw.Body.List = append(sw.Body.List, &ast.CaseClause{List: []ast.Expr{&ast.BasicLit{Kind: token.INT, Value: strconv.Itoa(i)}}, Body: body})
+				}
+				sw.Body.List = append(sw.Body.List, &ast.CaseClause{Body: fallback})
+				c.Replace(&ast.BlockStmt{List: []ast.Stmt{&ast.ExprStmt{X: vrtCall("Yield")}, sw}})
+				return true
+			}
+			c.Replace(&ast.BlockStmt{List: append([]ast.Stmt{&ast.ExprStmt{X: vrtCall("Yield")}}, fallback...)})
 		}
 		return true
 	})
 	return changed
+}
+
+// hasLabels: a labelled statement inside the select's bodies (they would be emitted twice).
+func hasLabels(n ast.Node) bool {
+	found := false
+	ast.Inspect(n, func(x ast.Node) bool {
+		if _, ok := x.(*ast.LabeledStmt); ok {
+			found = true
+		}
+		return !found
+	})
+	return found
 }
 
 // simpleExpr: identifiers, field selections and parenthesised forms of them - evaluating one twice
